@@ -217,7 +217,8 @@ impl EpNet {
                 });
                 match reply {
                     PutReply::Silent => return None,
-                    PutReply::Error(c) => return Some(krpc::error(&q.t, c, "scripted error")),
+                    // every endpoint words its error differently (implementations do): only the code counts
+                    PutReply::Error(c) => return Some(krpc::error(&q.t, c, &format!("scripted error, as worded by endpoint {i}"))),
                     PutReply::Ack => {
                         if e.store_puts {
                             if let Some(t) = target {
